@@ -92,6 +92,19 @@ func verifYield(point string) {
 	<-th.resume
 }
 
+// a parking point inside code that may or may not run with the mutex held: park only when the mutex
+// is free.  One request runs at a time and a parked request never holds a mutex, so a failed TryLock
+// means the calling request itself holds it.
+func verifYieldIfFree(point string, mu *sync.Mutex) {
+	if verifSchedPtr.Load() == nil {
+		return
+	}
+	if mu.TryLock() {
+		mu.Unlock()
+		verifYield(point)
+	}
+}
+
 type vStep struct {
 	thread   int
 	point    string // where the thread was parked when it was released ("Load", "Save", "Del", "Lock")
@@ -551,6 +564,42 @@ func c16Shape(trace []vStep, a, b int) string {
 	return sb.String()
 }
 
+// was one of the two requests pre-empted by the other while parked somewhere else than a storage
+// operation (before a Lock, at a published-field write) after it had started?  Such a schedule does
+// not exist at storage-operation granularity.
+func c16LockPreempt(trace []vStep, a, b int) bool {
+	storage := map[string]bool{"Load": true, "Save": true, "Del": true}
+	for _, pr := range [][2]int{{a, b}, {b, a}} {
+		x, y := pr[0], pr[1]
+		started := false
+		otherRan := false
+		for _, s := range trace {
+			switch s.thread {
+			case x:
+				if started && otherRan && !storage[s.point] {
+					return true
+				}
+				started = true
+				otherRan = false
+			case y:
+				otherRan = true
+			}
+		}
+	}
+	return false
+}
+
+func c16ShapeKey(trace []vStep, a, b int) string {
+	k := c16Shape(trace, a, b)
+	if c16LockPreempt(trace, a, b) {
+		k += "+k"
+	}
+	return k
+}
+
+// requests that present a one-time value: several copies in one group present the same value
+var c16OneTime = map[string]string{"bootauth-bob": "bootstrap-otp", "totp-alice": "totp", "u2fsign-alice": "u2f-challenge"}
+
 // is thread a's run contiguous with respect to thread b (no step of b strictly inside a's span)
 func c16Overlap(trace []vStep, a, b int) bool {
 	first := map[int]int{}
@@ -721,7 +770,7 @@ func TestVerif_C16(t *testing.T) {
 							explained = true
 							names := []string{g[a], g[b]}
 							sort.Strings(names)
-							res.hit(verifHit{Key: "C16:nonserial:" + names[0] + "|" + names[1] + ":" + c16Shape(r.trace, a, b), Kind: "schedule",
+							res.hit(verifHit{Key: "C16:nonserial:" + names[0] + "|" + names[1] + ":" + c16ShapeKey(r.trace, a, b), Kind: "schedule",
 								Oracle: "answers and final profiles equal those of some sequential order of the requests",
 								What:   fmt.Sprintf("requests %v under schedule %s: answers %v, final profiles %v %v %v — no sequential order gives this", g, strings.Join(sched, ""), r.outcome.resp, r.outcome.profiles[0], r.outcome.profiles[1], r.outcome.profiles[2]),
 								Case:   map[string]interface{}{"requests": g, "schedule": sched}, Observed: r.outcome.key()})
@@ -731,6 +780,25 @@ func TestVerif_C16(t *testing.T) {
 				if !explained {
 					res.hit(verifHit{Key: "C16:nonserial-unexplained:" + gname, Kind: "schedule", Oracle: "answers and final profiles equal those of some sequential order of the requests",
 						What: fmt.Sprintf("requests %v under schedule %s: outcome %s matches no sequential order although no two requests on one user overlap", g, strings.Join(sched, ""), r.outcome.key()), Case: map[string]interface{}{"requests": g, "schedule": sched}})
+				}
+			}
+			// a one-time value presented by several requests of the group is honoured at most once, in every schedule
+			for a := 0; a < len(g); a++ {
+				for b := a + 1; b < len(g); b++ {
+					kind, one := c16OneTime[g[a]]
+					if !one || g[a] != g[b] || r.outcome.resp[a] != 200 || r.outcome.resp[b] != 200 {
+						continue
+					}
+					gran := "storage"
+					if c16LockPreempt(r.trace, a, b) {
+						gran = "lock"
+					}
+					res.bump("one_time_value_honoured_twice_" + kind + "_" + gran)
+					res.hit(verifHit{Key: "C16:double-spend:" + kind + ":" + gran, Kind: "schedule",
+						Oracle: "a one-time value presented twice at the same moment is honoured at most once",
+						What: fmt.Sprintf("requests %v under schedule %s (parking points%s): both presentations of one %s answered 200 (%s granularity: %s)", g, strings.Join(sched, ""), c16AllPoints(r.trace), kind, gran,
+							map[string]string{"storage": "the requests were pre-empted at storage operations only", "lock": "needs a pre-emption between two critical sections of one request"}[gran]),
+						Case: map[string]interface{}{"requests": g, "schedule": sched}, Observed: r.outcome.key()})
 				}
 			}
 			// Coq case
@@ -765,6 +833,7 @@ func TestVerif_C16(t *testing.T) {
 			}
 		}
 	}
+	ucases, uidx := c16UnsealSchedules(t, res)
 	var sb strings.Builder
 	sb.WriteString(coqCaseHeader)
 	sb.WriteString("From KM Require Import Base.Cases Model.Conc.\nOpen Scope N_scope.\n")
@@ -774,12 +843,130 @@ func TestVerif_C16(t *testing.T) {
 	sb.WriteString("Definition cases : list (list hid * list nat * (list (option N) * list (option profile) * list (option N))) := [\n " + strings.Join(cases, ";\n ") + "].\n")
 	sb.WriteString("Definition c16_bad (c : list hid * list nat * (list (option N) * list (option profile) * list (option N))) : bool :=\n  let '(hs, sched, obs) := c in\n  negb (outcome_eqb (outcome [1; 2; 3] (run_seg (init_world db0 [(M_localAuth, 1, 3)] (map handler hs)) sched)) obs).\n")
 	sb.WriteString("Definition c16_mismatches := Eval vm_compute in mismatches c16_bad cases.\nPrint c16_mismatches.\nDefinition c16_ncases := Eval vm_compute in length cases.\nPrint c16_ncases.\n")
+	sb.WriteString("(* unseal || requests that serve the published keys, on a state that starts sealed: (requests, schedule, observed answers) *)\n")
+	sb.WriteString("Definition ucases : list (list hid * list nat * list (option N)) := [\n " + strings.Join(ucases, ";\n ") + "].\n")
+	sb.WriteString("Definition c16u_bad (c : list hid * list nat * list (option N)) : bool :=\n  let '(hs, sched, obs) := c in\n  negb (list_eqb oN_eq (map resp (threads (run_seg (init_world [] [] (map handler hs)) sched))) obs).\n")
+	sb.WriteString("Definition c16u_mismatches := Eval vm_compute in mismatches c16u_bad ucases.\nPrint c16u_mismatches.\nDefinition c16u_ncases := Eval vm_compute in length ucases.\nPrint c16u_ncases.\n")
 	if err := ioutil.WriteFile(filepath.Join(verifOut(), "CasesC16.v"), []byte(sb.String()), 0644); err != nil {
 		t.Fatal(err)
 	}
 	ioutil.WriteFile(filepath.Join(verifOut(), "CasesC16.idx"), []byte(strings.Join(idx, "\n")), 0644)
+	ioutil.WriteFile(filepath.Join(verifOut(), "CasesC16U.idx"), []byte(strings.Join(uidx, "\n")), 0644)
 	res.Extra["schedules"] = len(cases)
+	res.Extra["unseal_schedules"] = len(ucases)
 	res.write(t, "TestVerif_C16")
+}
+
+// ---------------------------------------------------------------- unseal || requests
+//
+// Every schedule starts from a freshly loaded SEALED state (the production configuration path).  The
+// unseal request is the real secretInjectorHandler; the other requests are served through the
+// regenerated mux and park once before they start.  Parking points of the unseal path: every
+// Mutex.Lock of unseal.go and every write of a RuntimeState field of the regenerated
+// shared_field_writes table that is reached with the mutex free (lib/checks/c16.py).
+func c16UnsealSchedules(t *testing.T, res *verifResult) (cases, idx []string) {
+	routes := map[string]string{"sshca": "/public/sshca", "x509ca": "/public/x509ca", "jwks": idpOpenIDCJWKSPath}
+	coq := map[string]string{"unseal": "HUnseal", "sshca": "HReadKeys", "x509ca": "HReadKeys", "jwks": "HReadKeys"}
+	groups := [][]string{{"unseal", "sshca"}, {"unseal", "x509ca"}, {"unseal", "jwks"}, {"unseal", "unseal"}, {"unseal", "unseal", "sshca"}, {"unseal", "sshca", "jwks"}}
+	for _, g := range groups {
+		gname := strings.Join(g, "|")
+		type runObs struct {
+			trace  []vStep
+			resp   []int
+			bodies [][]byte
+			env    *verifEnv
+		}
+		var runs []*runObs
+		mk := func() []func() {
+			env := verifSetupSealed(t, func(c *AppConfigFile, dir string) {
+				c.Base.AllowedAuthBackendsForWebUI = []string{"password"}
+				c.Base.AllowedAuthBackendsForCerts = []string{"U2F", "TOTP"}
+			})
+			env.handler = env.buildHandler()
+			r := &runObs{resp: make([]int, len(g)), bodies: make([][]byte, len(g)), env: env}
+			runs = append(runs, r)
+			var bodies []func()
+			for i, name := range g {
+				i, name := i, name
+				if name == "unseal" {
+					bodies = append(bodies, func() { r.resp[i] = env.inject(env.passphrase, true) })
+					continue
+				}
+				req := verifNewRequest("GET", routes[name], nil)
+				bodies = append(bodies, func() {
+					verifYield("Start")
+					rr, pan := env.serve(req)
+					r.resp[i] = rr.Code
+					if pan {
+						r.resp[i] = 599
+					}
+					r.bodies[i] = append([]byte{}, rr.Body.Bytes()...)
+				})
+			}
+			return bodies
+		}
+		_, err := verifEnumerate(mk, func(trace []vStep) bool {
+			r := runs[len(runs)-1]
+			r.trace = trace
+			// what the same routes answer once everything has finished
+			for i, name := range g {
+				if name == "unseal" || r.resp[i] != 200 {
+					continue
+				}
+				rr, _ := r.env.serve(verifNewRequest("GET", routes[name], nil))
+				if rr.Code == 200 && !bytes.Equal(rr.Body.Bytes(), r.bodies[i]) {
+					r.resp[i] = 299
+					var sched []string
+					for _, s := range trace {
+						sched = append(sched, strconv.Itoa(s.thread))
+					}
+					res.hit(verifHit{Key: "C16:unsealed-incomplete-keys:" + name, Kind: "schedule",
+						Oracle: "a request served while the unseal request runs sees the server either sealed or unsealed with its complete key material",
+						What: fmt.Sprintf("requests %v under schedule %s (parking points%s): GET %s was answered 200 with %d bytes %q while the same request after the unseal has finished gives %d bytes", g, strings.Join(sched, ""), c16AllPoints(trace), routes[name], len(r.bodies[i]), c16Trunc(r.bodies[i]), rr.Body.Len()),
+						Case: map[string]interface{}{"requests": g, "schedule": sched}})
+				}
+			}
+			return true
+		}, 400)
+		if err != nil {
+			res.hit(verifHit{Key: "C16:harness:schedule:" + gname, Oracle: "harness", What: "schedule replay failed: " + err.Error(), Case: gname})
+			continue
+		}
+		serial := map[string]bool{}
+		for _, r := range runs {
+			if c16Serial(r.trace) {
+				serial[fmt.Sprint(r.resp)] = true
+			}
+		}
+		for _, r := range runs {
+			var sched, hl, resp []string
+			for _, s := range r.trace {
+				sched = append(sched, strconv.Itoa(s.thread))
+			}
+			for i, name := range g {
+				hl = append(hl, coq[name])
+				resp = append(resp, fmt.Sprintf("Some %d", r.resp[i]))
+			}
+			res.eval("unseal|"+gname+"|"+strings.Join(sched, ""), !c16Serial(r.trace))
+			res.bump(fmt.Sprintf("unseal_schedules_%d_requests", len(g)))
+			if !serial[fmt.Sprint(r.resp)] {
+				res.hit(verifHit{Key: "C16:nonserial-unseal:" + gname, Kind: "schedule", Oracle: "answers equal those of some sequential order of the requests",
+					What: fmt.Sprintf("requests %v under schedule %s (parking points%s): answers %v (299 = answered as unsealed with other key material than after the unseal) — no sequential order gives this", g, strings.Join(sched, ""), c16AllPoints(r.trace), r.resp),
+					Case: map[string]interface{}{"requests": g, "schedule": sched}})
+			}
+			cases = append(cases, fmt.Sprintf("([%s], [%s]%%nat, [%s])", strings.Join(hl, "; "), strings.Join(sched, "; "), strings.Join(resp, "; ")))
+			idx = append(idx, fmt.Sprintf("requests=%v schedule=%s points=%s answers=%v", g, strings.Join(sched, ""), c16AllPoints(r.trace), r.resp))
+		}
+		res.bump("unseal_groups")
+	}
+	return cases, idx
+}
+
+func c16Trunc(b []byte) string {
+	if len(b) > 60 {
+		return string(b[:60]) + "..."
+	}
+	return string(b)
 }
 
 func c16AllPoints(trace []vStep) string {
@@ -791,6 +978,94 @@ func c16AllPoints(trace []vStep) string {
 }
 
 // ---------------------------------------------------------------- randomised concurrent mixes (run under -race)
+
+// the unseal request among concurrent requests: fresh sealed states, two injections racing readers of
+// the key material that poll from before the unseal until after it
+func c16RaceUnseal(t *testing.T, res *verifResult) {
+	rounds := 4
+	if verifThorough() {
+		rounds = 60
+	}
+	routes := []string{"/public/sshca", idpOpenIDCJWKSPath, "/public/x509ca"}
+	for round := 0; round < rounds; round++ {
+		env := verifSetupSealed(t, func(c *AppConfigFile, dir string) {
+			c.Base.AllowedAuthBackendsForWebUI = []string{"password"}
+		})
+		env.handler = env.buildHandler()
+		var wg sync.WaitGroup
+		start := make(chan bool)
+		var stop atomic.Bool
+		type obs struct {
+			route string
+			body  []byte
+		}
+		var mu sync.Mutex
+		var seen []obs
+		inj := make([]int, 2)
+		for i := range inj {
+			wg.Add(1)
+			go func(i int) {
+				defer wg.Done()
+				<-start
+				time.Sleep(time.Duration(200+300*i) * time.Microsecond)
+				inj[i] = env.inject(env.passphrase, true)
+			}(i)
+		}
+		var readers sync.WaitGroup
+		for i := 0; i < 12; i++ {
+			readers.Add(1)
+			go func(i int) {
+				defer readers.Done()
+				<-start
+				route := routes[i%len(routes)]
+				for n := 0; n < 4000 && !stop.Load(); n++ {
+					rr, pan := env.serve(verifNewRequest("GET", route, nil))
+					if pan {
+						res.hit(verifHit{Key: "C16:panic:unseal-reader", Oracle: "no handler panics under concurrency", What: route + " panicked while the unseal request ran", Case: round})
+						return
+					}
+					if rr.Code == 200 {
+						mu.Lock()
+						seen = append(seen, obs{route, append([]byte{}, rr.Body.Bytes()...)})
+						mu.Unlock()
+						if n%2 == 0 {
+							return
+						}
+					}
+				}
+			}(i)
+		}
+		close(start)
+		wg.Wait()
+		time.Sleep(2 * time.Millisecond)
+		stop.Store(true)
+		readers.Wait()
+		ok := 0
+		for _, c := range inj {
+			if c == 200 {
+				ok++
+			}
+		}
+		if ok != 1 {
+			res.hit(verifHit{Key: "C16:unseal-twice", Kind: "schedule", Oracle: "two simultaneous unseal requests: exactly one is acknowledged", What: fmt.Sprintf("answers %v", inj), Case: round})
+		}
+		final := map[string][]byte{}
+		for _, route := range routes {
+			rr, _ := env.serve(verifNewRequest("GET", route, nil))
+			final[route] = rr.Body.Bytes()
+		}
+		for _, o := range seen {
+			res.eval("race-unseal|"+o.route, true)
+			if !bytes.Equal(o.body, final[o.route]) {
+				name := map[string]string{"/public/sshca": "sshca", idpOpenIDCJWKSPath: "jwks", "/public/x509ca": "x509ca"}[o.route]
+				res.hit(verifHit{Key: "C16:unsealed-incomplete-keys:" + name, Kind: "schedule",
+					Oracle: "a request served while the unseal request runs sees the server either sealed or unsealed with its complete key material",
+					What:   fmt.Sprintf("under real concurrency GET %s was answered 200 with %d bytes while the unseal request ran; afterwards it gives %d bytes", o.route, len(o.body), len(final[o.route])), Case: round})
+			}
+		}
+		res.bump("race_unseal_rounds")
+	}
+}
 
 func TestVerif_C16Race(t *testing.T) {
 	res := newVerifResult("randomised concurrent mixes of the whole handler set (token management, registration requests, U2F sign request / response with a software token, TOTP auth, bootstrap OTP, VIP push start / poll, OAuth2 begin / callback, user add / delete, state clean-up) under the race detector; plus the one-time-value oracles on simultaneous presentations")
@@ -809,6 +1084,7 @@ func TestVerif_C16Race(t *testing.T) {
 		names = append(names, n)
 	}
 	sort.Strings(names)
+	c16RaceUnseal(t, res)
 	budget := 10 * time.Second
 	if verifThorough() {
 		budget = 150 * time.Second
